@@ -194,6 +194,42 @@ def run_artifact_index(case, ctx):
     return {"outcome": "violations" if viol else "roundtrip-ok", "nontrivial": True, "violations": viol[:4], "counters": counters, "obs": {"kind": "artifact-index"}}
 
 
+def run_paos_relay(case, ctx):
+    from saml2_tophat import pack, samlp
+    from saml2_tophat.profile import ecp
+    kind, msg, is_resp, soaptype = ctx.msgs[case["msg"]]
+    relay = case["relay"]
+    viol, counters = [], {"independent_reads": 0, "library_decodes": 0}
+    hdr = ecp.RelayState(text=relay, must_understand="1", actor="http://schemas.xmlsoap.org/soap/actor/next")
+    try:
+        env_text = pack.make_soap_enveloped_saml_thingy(msg, [hdr])
+    except Exception as exc:
+        return {"outcome": "packaging-raised", "nontrivial": True, "counters": counters,
+                "violations": [{"key": "C14/packaging-raised:paos-relay", "what": "RelayState %r as ecp:RelayState header: %r" % (relay, exc)}]}
+    data = env_text if isinstance(env_text, bytes) else env_text.encode("utf-8")
+    try:
+        envl = ET.fromstring(data)
+        counters["independent_reads"] = 1
+        rs = envl.findall("{%s}Header/{%s}RelayState" % (SOAPENV, ecp.NAMESPACE))
+        body = [c for c in envl if c.tag == "{%s}Body" % SOAPENV]
+        if len(rs) != 1 or (rs[0].text or "") != relay:
+            viol.append({"key": "C14/paos-relaystate-altered", "what": "RelayState %r comes out of the envelope as %r" % (relay, [r.text for r in rs])})
+        if len(body) != 1 or len(body[0]) != 1 or canon(body[0][0]) != canon(ET.fromstring(msg.encode("utf-8"))):
+            viol.append({"key": "C14/soap-message-not-element-identical", "what": "message beside an ecp:RelayState header %r differs after packaging" % (relay,)})
+    except ET.ParseError as exc:
+        viol.append({"key": "C14/soap-envelope-not-wellformed", "what": "RelayState %r as ecp:RelayState header: %r" % (relay, exc)})
+    try:
+        cls = samlp.Response if is_resp else {"authn_request": samlp.AuthnRequest, "logout_request": samlp.LogoutRequest, "attribute_query": samlp.AttributeQuery}[soaptype]
+        b, h = pack.parse_soap_enveloped_saml(data, cls, [ecp.RelayState])
+        counters["library_decodes"] = 1
+        got = [v.text for v in h.values()]
+        if got != [relay]:
+            viol.append({"key": "C14/paos-relaystate-altered", "what": "RelayState %r read back by the library as %r" % (relay, got)})
+    except Exception as exc:
+        viol.append({"key": "C14/soap-own-output-not-decodable", "what": "RelayState %r: %r" % (relay, exc)})
+    return {"outcome": "violations" if viol else "roundtrip-ok", "nontrivial": True, "violations": viol[:4], "counters": counters, "obs": {"kind": "paos-relay"}}
+
+
 def setup_worker(ctx):
     sp, idp = fed.pair()
     ctx.sp, ctx.idp = sp, idp
@@ -291,6 +327,17 @@ def gen_cases(tier, seed):
             for binding in ("post", "redirect"):
                 cases.append({"id": "%s-layered-payload-%s-%d" % (binding, lname, di), "sig": [binding, "layered-payload", lname, di], "binding": binding, "msg": None,
                               "payload_hex": octets.hex(), "relay": "rs", "rclass": "plain", "dest": "noquery"})
+    # PAOS carries the RelayState as a SOAP header block (ecp:RelayState) next to the message in the body: what goes in comes out
+    XML_ILLEGAL = re.compile(u"[\x00-\x08\x0b\x0c\x0e-\x1f\ufffe\uffff]")
+    for rclass, vals in sorted(RELAY_CLASSES.items()):
+        for ri, relay in enumerate(vals):
+            if not relay or XML_ILLEGAL.search(relay):
+                continue        # (no XML 1.0 document can carry these characters at all)
+            if tier == "quick" and ri % 2:
+                continue
+            for mk in (0, 5):
+                cases.append({"id": "paos-relay-m%d-%s%d" % (mk, rclass, ri), "sig": ["paos-relay", mk, rclass], "binding": "paos-relay", "msg": mk, "relay": relay,
+                              "rclass": rclass, "dest": "noquery"})
     # artifacts: the endpoint index written into an artifact is the one read back from it
     cases.append({"id": "artifact-endpoint-index", "sig": ["artifact-endpoint-index"], "binding": "artifact-index", "msg": None, "relay": "", "rclass": "empty",
                   "dest": "noquery"})
@@ -339,6 +386,8 @@ def _run_case(case, ctx):
         return run_instance(case, ctx)
     if case["binding"] == "artifact-index":
         return run_artifact_index(case, ctx)
+    if case["binding"] == "paos-relay":
+        return run_paos_relay(case, ctx)
     from saml2_tophat.entity import Entity
     ent = ctx.idp if (case["msg"] is not None and case["msg"] >= 4) else ctx.sp
     binding = case["binding"]
